@@ -284,7 +284,7 @@ func (m *jsModel) resolve(i int, ptrProto bool, mid [2]string, depth int) (msEnt
 }
 
 // dispatch predicts the line a dispatch probe prints.
-func (m *jsModel) dispatch(d Disp, nameIdx int) (string, bool) {
+func (m *jsModel) dispatch(d Disp, nameIdx int, helper bool) (string, bool) {
 	mid := m.t.Mids[d.M-1]
 	var e msEntry
 	switch d.Form {
@@ -315,7 +315,7 @@ func (m *jsModel) dispatch(d Disp, nameIdx int) (string, bool) {
 		b = a + 1
 	}
 	code := (e.owner+1)*100 + nameIdx*10
-	if !hasX(d.Form) {
+	if !hasX(d.Form) || helper {
 		return fmt.Sprintf("%d %d", code+a, code+b), true
 	}
 	// the counter the program reads afterwards is the one of the object Go's selector denotes
@@ -378,7 +378,7 @@ func (m *jsModel) predict(c cell, names []string) (string, bool) {
 				ni = k + 1
 			}
 		}
-		return m.dispatch(d, ni)
+		return m.dispatch(d, ni, c.b == 1)
 	}
 	return "", false
 }
